@@ -346,7 +346,7 @@ pub fn build(
             continue;
         };
 
-        let mut add_functions = |functions: &[Function]| {
+        let mut add_functions = |functions: &[Function]| -> anyhow::Result<()> {
             for function in functions.iter().filter(|f| f.is_public()) {
                 let mut function = function.clone();
                 let original_name = function.name.clone();
@@ -354,15 +354,22 @@ pub fn build(
                     // a raw identifier (`r#fn`) cannot be glued into a longer one as it is
                     let unraw = |s: &str| s.strip_prefix("r#").unwrap_or(s).to_string();
                     function.name = format!("{}_{}", unraw(&base_name), unraw(&original_name));
+                    if associated_functions_used_names.contains(&function.name) {
+                        anyhow::bail!(
+                            "function `{original_name}` of base `{base_name}` of type `{resolvee_path}` cannot be exposed: both `{original_name}` and `{}` are taken",
+                            function.name
+                        );
+                    }
                 }
                 function.body = FunctionBody::field(base_name.clone(), original_name);
                 associated_functions_used_names.insert(function.name.clone());
                 associated_functions.push(function);
             }
+            Ok(())
         };
 
         // Push this base's associated functions into the type
-        add_functions(&base_type.associated_functions);
+        add_functions(&base_type.associated_functions)?;
 
         if i > 0 {
             // Inject all non-first-base vfuncs into the type
@@ -374,7 +381,7 @@ pub fn build(
                     .filter(|f| f.arguments.iter().any(|a| a.is_self()))
                     .cloned()
                     .collect();
-                add_functions(&with_receiver);
+                add_functions(&with_receiver)?;
             }
         }
     }
